@@ -56,12 +56,12 @@ Definition is_ffi_desc (o : opcode) : bool :=
   | _ => false
   end.
 
-(* builtin ids of front/libmath.h: pow (7) and assertf (22) take two operands, read (12)
-   takes none and pushes, the others replace the top *)
+(* builtin ids are regenerated from front/libmath.h (Gen/Opcodes.v): pow and assertf take two
+   operands, read takes none and pushes, the others replace the top *)
 Definition builtin_effect (id : Z) : ainstr :=
-  if (id =? 7) || (id =? 22) then AOp [] 2 1
-  else if id =? 12 then AOp [] 0 1
-  else if (1 <=? id) && (id <=? 30) then AOp [] 1 1
+  if (id =? lib_math_pow) || (id =? lib_math_assertf) then AOp [] 2 1
+  else if id =? lib_math_read then AOp [] 0 1
+  else if (1 <=? id) && (id <=? nbuiltin) then AOp [] 1 1
   else ABad.
 
 Definition decode (prog : list rinstr) (a : nat) : option ainstr :=
